@@ -30,11 +30,18 @@ IsNumber(v) == Tag(v) \in {"i", "f", "nan", "inf"}      \* bools are a type of t
 \* numerically equal ints/floats compare 0; NaN ranks above every finite number; and on two
 \* scalars of one kind (numbers, strings, datetimes) cmp is Python's own order - sort() uses the
 \* native order whenever it can and its result has to be non-decreasing under cmp.
+\* a datetime.date object crosses as <<"date", ordinal>> (a datetime as <<"d", <<ordinal, second, microsecond>>>>).  Two dates
+\* follow their native order.  A date against a datetime has no native order (Python raises) and the statement does not say
+\* how they rank: such an entry is held by the preorder axioms and by "a call has no memory" only (named deviation
+\* OrdDayVsDatetime; the code ranks a date as the datetime at midnight of its day - mechanism level, CmpModel below).
+OrdIsDay(v)  == Tag(v) = "date"
+OrdDPay(v)   == IF Tag(v) = "date" THEN <<Pay(v), 0, 0>> ELSE Pay(v)
 Pinned(u, v) == (IsNumber(u) /\ IsNumber(v) /\ ~(IsInf(u) \/ IsInf(v)))
-                \/ (IsStr(u) /\ IsStr(v)) \/ (IsDate(u) /\ IsDate(v)) \/ (IsNone(u) /\ IsNone(v))
+                \/ (IsStr(u) /\ IsStr(v)) \/ (IsDate(u) /\ IsDate(v)) \/ (IsNone(u) /\ IsNone(v)) \/ (OrdIsDay(u) /\ OrdIsDay(v))
 PinnedValue(u, v) == IF IsNumber(u) THEN NumCmp(u, v)
                      ELSE IF IsStr(u) THEN StrCmp(Pay(u), Pay(v))
-                     ELSE IF IsDate(u) THEN DateCmp(Pay(u), Pay(v)) ELSE 0
+                     ELSE IF IsDate(u) THEN DateCmp(Pay(u), Pay(v))
+                     ELSE IF OrdIsDay(u) THEN Sign(Pay(u) - Pay(v)) ELSE 0
 
 \* ---- axioms on an observed matrix -----------------------------------------------------------
 \* vals: sequence of values, M: n x n matrix.  Each operator returns the set of witnesses of a
@@ -55,7 +62,7 @@ IsPerm(xs, out) == Len(xs) = Len(out) /\ \A i \in 1..Len(xs) : Count(xs, xs[i]) 
 
 \* ---- the documented mechanism ----------------------------------------------------------------
 \* str(type(x)) after as_primitive and int -> float: NoneType < bool < datetime < dict < float < list < str < tuple
-TypeRank(v) == CASE Tag(v) = "n" -> 0 [] Tag(v) = "b" -> 1 [] Tag(v) = "d" -> 2 [] Tag(v) = "m" -> 3
+TypeRank(v) == CASE Tag(v) = "n" -> 0 [] Tag(v) = "b" -> 1 [] Tag(v) \in {"d", "date"} -> 2 [] Tag(v) = "m" -> 3
                  [] Tag(v) \in {"i", "f", "nan", "inf"} -> 4 [] Tag(v) = "l" -> 5 [] Tag(v) = "s" -> 6 [] Tag(v) = "t" -> 7
 Len0(v) == IF Tag(v) \in {"t", "l", "m"} THEN Len(Pay(v)) ELSE 0
 RECURSIVE CmpModel(_, _), CmpArr(_, _, _)
@@ -67,7 +74,7 @@ CmpModel(u, v) ==
     ELSE IF Len0(u) # Len0(v) THEN Sign(Len0(u) - Len0(v))
     ELSE CASE Tag(u) = "n" -> 0
            [] Tag(u) = "b" -> Sign(Pay(u) - Pay(v))
-           [] Tag(u) = "d" -> DateCmp(Pay(u), Pay(v))
+           [] Tag(u) \in {"d", "date"} -> DateCmp(OrdDPay(u), OrdDPay(v))      \* as_primitive: a date becomes the datetime at midnight
            [] Tag(u) = "s" -> StrCmp(Pay(u), Pay(v))
            [] IsNum(u) /\ ~IsBool(u) -> NumCmp(u, v)
            [] Tag(u) \in {"t", "l"} -> CmpArr(Pay(u), Pay(v), 1)
